@@ -8,6 +8,12 @@ Decided here (see DESIGN.md, section C09):
   (iii) every termination path schedules exactly one cleanup (_force_close guard; channel close handshake:
         cleanup is scheduled exactly when the receive side turns 'closed').
 Futures are opaque values; "resolved" is a ghost set (self.ghost_done), "cancelled" an uninterpreted predicate.
+
+Second part of the file (after the audit, notes/audit/C09.md): the cleanup overrides that actually run
+(SSHClientConnection / SSHServerConnection._cleanup), add_channel / remove_channel / SSHChannel.__init__ (no channel
+registers on a closed connection; the channel-side class invariants are established), the pending operations read
+(_block_read + the wait step of read / readuntil / TunTap read), SFTP request (client handler cleanup, response
+dispatch, request registration) and channel open (_open), the remaining writers of conn_waiter_inv, frames.
 """
 import z3
 from pyvc.contracts import *
@@ -562,7 +568,9 @@ chan_cleanup_call.spec_getter = lambda: chan_cleanup
 process_connection_close = Spec(
     PROP, 'channel', 'SSHChannel.process_connection_close', self_class='SSHChannel',
     params=dict(exc='opt[opaque:Exc]'), classes=C9_CHAN_CLASSES,
-    stubs={'self._close_send': contract_stub(lambda: close_send), 'self._cleanup': chan_cleanup_call},
+    stubs={'self._close_send': contract_stub(lambda: close_send), 'self._cleanup': chan_cleanup_call,
+           # (not called by the real code: a cleanup that is only *scheduled* here must be a violation, not exit 2)
+           'self._loop.call_soon': call_soon_stub},
     requires=lambda c: z3.And(chan_registry_inv(c), hs_inv(c)),
     modifies=sorted(set(CHAN_CLEANUP_MODIFIES) | set(close_send.modifies) | {'ghost_cleanup_runs'}),
     ensures=CHAN_CLEANUP_POST + [
@@ -2064,7 +2072,6 @@ sftp_make_request = Spec(
     stubs={'self._loop.create_future': fresh_request_future_stub,
            'self._send_request': contract_stub(lambda: sftp_send_request), 'await waiter': await_sftp_waiter_stub},
     requires=lambda c: z3.And(sftp_registry_inv(c), id_free(c)),
-    ensures=[('waited', lambda c: z3.BoolVal(len(c.events('await')) == 1))],
     always=[
         # after cleanup (_writer is None) nobody is parked: the request fails before the wait
         ('closed-session-fails-immediately', lambda c: z3.Implies(
